@@ -128,7 +128,7 @@ class Lift:
     """Lex N bytes b[0..N) (ints or BV8 terms). toks[e] = (kind term BV16, end term BV8) of the token starting at e."""
     def __init__(self, model, bytes_):
         self.m = model; self.N = len(bytes_); self.b = list(bytes_); self.memo = {}; self.stack = set(); self.calls = 0
-        if self.N > 250: raise Unsupported('lexer lift bound: N <= 250')
+        self.EW = 8 if self.N < 250 else 24
 
     def lex_all(self):
         return [self.R(self.m.start, e) for e in range(self.N + 1)]
@@ -193,7 +193,7 @@ class Lift:
             mm = re.search(r'lex::(goto\w+|_error|_end)$', callee)
             if mm:
                 g = mm.group(1); e = st['e']
-                if g == '_end': st['out'] = (z3.BitVecVal(END, 16), z3.BitVecVal(e, 8))
+                if g == '_end': st['out'] = (z3.BitVecVal(END, 16), z3.BitVecVal(e, self.EW))
                 elif g == '_error': st['out'] = self.error(e + 1)
                 else: st['out'] = self.R(g, e)
                 bb = nb; continue
@@ -214,9 +214,9 @@ class Lift:
             elif op == 'bump_unchecked':
                 st['e'] = e + int(re.search(r'const (\d+)_usize', args).group(1))
             elif op == 'set':
-                st['out'] = (z3.BitVecVal(env[args.split()[-1]], 16), z3.BitVecVal(st['e'], 8))
+                st['out'] = (z3.BitVecVal(env[args.split()[-1]], 16), z3.BitVecVal(st['e'], self.EW))
             elif op == 'error': st['out'] = self.error(e)
-            elif op == 'end': st['out'] = (z3.BitVecVal(END, 16), z3.BitVecVal(e, 8))
+            elif op == 'end': st['out'] = (z3.BitVecVal(END, 16), z3.BitVecVal(e, self.EW))
             elif op == 'test':
                 pm = re.search(r'lex::(pattern\d+)\}', targ)
                 env[dst] = self.pattern(pm.group(1), self.b[e]) if e < self.N else False
@@ -225,14 +225,14 @@ class Lift:
 
     def error(self, e):
         # logos: token_end advanced to the next char boundary (bytes that are not 10xxxxxx), at most N
-        end = z3.BitVecVal(self.N, 8)
+        end = z3.BitVecVal(self.N, self.EW)
         for i in range(self.N - 1, e - 1, -1):
             bi = self.b[i]
             isb = ((bi & 0xC0) != 0x80) if isinstance(bi, int) else ((bi & 0xC0) != 0x80)
-            if isb is True: end = z3.BitVecVal(i, 8)
+            if isb is True: end = z3.BitVecVal(i, self.EW)
             elif isb is False: pass
-            else: end = z3.If(isb, z3.BitVecVal(i, 8), end)
-        if e >= self.N: end = z3.BitVecVal(self.N, 8)
+            else: end = z3.If(isb, z3.BitVecVal(i, self.EW), end)
+        if e >= self.N: end = z3.BitVecVal(self.N, self.EW)
         return (z3.BitVecVal(ERR, 16), end)
 
     def pattern(self, pname, byte):
